@@ -208,6 +208,23 @@ const PAIRS: &[(&str, &str, &str, &str)] = &[
     ("cross-basis", "Vector::vector_project across bases", "let _r = v3a.vector_project(&v3b);", "let _r = v3a.vector_project(&v3a2);"),
     ("cross-basis", "Point::distance across bases", "let _r = p3a.distance(&p3b);", "let _r = p3a.distance(&p3a2);"),
     ("cross-basis", "Vector::clamp across bases", "let _r = v3a.clamp(&v3b, &v3a2);", "let _r = v3a.clamp(&v3a2, &v3a2);"),
+    ("cross-basis", "Lerp on tuples with a cross-basis member", "let _r = (v3a, p3a).lerp(&(v3b, p3a2), 0.5);", "let _r = (v3a, p3a).lerp(&(v3a2, p3a2), 0.5);"),
+    ("cross-basis", "Vary::vary_to across bases", "let _r = v3a.vary_to(v3b, 4);", "let _r = v3a.vary_to(v3a2, 4);"),
+    ("cross-basis", "Vary::dv_dt across bases", "let _r = p3a.dv_dt(&p3b, 1.0);", "let _r = p3a.dv_dt(&p3a2, 1.0);"),
+    ("cross-basis", "Vary::step with a difference from another basis", "let _r = p3a.step(&v3b);", "let _r = p3a.step(&v3a);"),
+    ("cross-basis", "Bezier control points in different bases", "let _r = CubicBezier([p3a, p3a2, p3b, p3a]);", "let _r = CubicBezier([p3a, p3a2, p3a2, p3a]);"),
+    ("point-plus-point", "Bezier control polygon mixing points and vectors", "let _r = CubicBezier([p3a, v3a, p3a2, p3a]);", "let _r = CubicBezier([p3a, p3a + v3a, p3a2, p3a]);"),
+    ("mixed-dimension", "Bezier control points of different dimensions", "let _r = CubicBezier([v2a, v2a2, v3a, v2a]);", "let _r = CubicBezier([v2a, v2a2, v2a2, v2a]);"),
+    ("cross-basis", "spherical vector converted into a tagged basis", "let _r: Vec3<A> = spherical(1.0, degs(10.0), degs(20.0)).into();", "let _r: Vec3 = spherical(1.0, degs(10.0), degs(20.0)).into();"),
+    ("mixed-dimension", "polar vector converted to 3-D", "let _r: Vec3 = polar(1.0, degs(10.0)).into();", "let _r: Vec2 = polar(1.0, degs(10.0)).into();"),
+    ("bare-number-as-angle", "spherical vector built from a real vector's components", "let _r: SphericalVec = vec3(1.0, 0.5, 0.25);", "let _r: SphericalVec = vec3(1.0, 0.5, 0.25).into();"),
+    ("cross-basis", "f32 * Vector keeps the basis", "let _r: Vec3<B> = 2.0 * v3a;", "let _r: Vec3<A> = 2.0 * v3a;"),
+    ("cross-basis", "-Vector keeps the basis", "let _r = -v3a + v3b;", "let _r = -v3a + v3a2;"),
+    ("cross-basis", "Vector / f32 keeps the basis", "let _r = v3a / 2.0 - v3b;", "let _r = v3a / 2.0 - v3a2;"),
+    ("cross-basis", "Vector::normalize keeps the basis", "let _r = v3a.normalize().dot(&v3b);", "let _r = v3a.normalize().dot(&v3a2);"),
+    ("cross-basis", "Vector::map keeps the basis", "let _r = v3a.map(|c| c * 2.0) + v3b;", "let _r = v3a.map(|c| c * 2.0) + v3a2;"),
+    ("cross-basis", "Point::to_vec keeps the basis", "let _r = p3a.to_vec() + v3b;", "let _r = p3a.to_vec() + v3a;"),
+    ("cross-basis", "row_vec is in the source space", "let _r = m_ab.row_vec(0).dot(&m_ab.col_vec(0));", "let _r = m_ab.row_vec(0).dot(&m_ab.row_vec(1));"),
     ("mixed-dimension", "colour with alpha mixed with colour without", "let _r = rgb_f.lerp(&rgba(0.1f32, 0.2, 0.3, 1.0), 0.5);", "let _r = rgb_f.lerp(&rgba(0.1f32, 0.2, 0.3, 1.0).to_rgb(), 0.5);"),
     // ---- render(): the vertex shader must output clip-space (projective) positions
     (
